@@ -549,7 +549,7 @@ fn one_case(id: String, rng: &mut Rng, hostile: bool, mech: Mech) -> Case {
     }
     c.step(
         format!("pcicap op name=drop rd={}", if rd.is_empty() { "-".to_string() } else { rd.iter().map(|v| format!("{:#x}", v)).collect::<Vec<_>>().join(",") }),
-        format!("{} => {}", if tr.is_empty() { "-".to_string() } else { tr.iter().map(|a| a.canon()).collect::<Vec<_>>().join(" ") }, out),
+        format!("{} => {}", if tr.is_empty() { "-".to_string() } else { trace_grouped("drop", &tr) }, out),
     );
     for v in mmio::with(|b| std::mem::take(&mut b.violations)) {
         c.fail(format!("access outside the capability windows: {}", v));
@@ -658,8 +658,19 @@ fn run_op(c: &mut Case, t: &mut PciTransport, name: &str, args: &str, rd: &[u64]
     }
     c.step(
         format!("pcicap op name={}{} rd={}", name, args, if rd.is_empty() { "-".to_string() } else { rd.iter().map(|v| format!("{:#x}", v)).collect::<Vec<_>>().join(",") }),
-        format!("{} => {}", if tr.is_empty() { "-".to_string() } else { tr.iter().map(|a| a.canon()).collect::<Vec<_>>().join(" ") }, out),
+        format!("{} => {}", if tr.is_empty() { "-".to_string() } else { trace_grouped(name, &tr) }, out),
     );
+}
+
+/// the accesses of one operation; for `queue_set` the writes between the queue selection and the
+/// enabling write form an unordered group `{ … }` (the property orders only "select first, enable last")
+fn trace_grouped(name: &str, tr: &[mmio::Access]) -> String {
+    let all: Vec<String> = tr.iter().map(|a| a.canon()).collect();
+    if name == "queue_set" && all.len() >= 3 {
+        format!("{} {{ {} }} {}", all[0], all[1..all.len() - 1].join(" "), all[all.len() - 1])
+    } else {
+        all.join(" ")
+    }
 }
 
 pub fn run(ctx: &Ctx) -> (Vec<Case>, String, bool, BTreeMap<String, String>) {
